@@ -88,8 +88,16 @@ impl Formula {
 //@         it.seq().len() == a.terms@.len(), forall|j: int| 0 <= j < a.terms@.len() ==> *it.seq()[j] == a.terms@[j],
 //@         forall|j: int| 0 <= j < it.index@ ==> (#[trigger] term_var(a.terms@[j])) is Some && terms_as_vars@.contains(term_var(a.terms@[j])->Some_0),
 //@         forall|x: Variable| terms_as_vars@.contains(x) ==> exists|j: int| 0 <= j < a.terms@.len() && #[trigger] term_var(a.terms@[j]) == Some(x),
+//@         // as many set elements as terms so far only if the terms so far are pairwise distinct variables
+//@         terms_as_vars@.len() <= it.index@,
+//@         terms_as_vars@.len() == it.index@ ==> args_distinct_upto(a.terms@, it.index@ as int),
 //@ .hint before "terms_as_vars.insert(v);"
 //@     proof {
+//@         if !terms_as_vars@.contains(v) && terms_as_vars@.len() == it.index@ {
+//@             assert forall|i: int, j: int| 0 <= i < j < it.index@ + 1 implies #[trigger] term_var(a.terms@[i]) != #[trigger] term_var(a.terms@[j]) by {
+//@                 if j == it.index@ { assert(terms_as_vars@.contains(term_var(a.terms@[i])->Some_0)); }
+//@             }
+//@         }
 //@         assert forall|x: Variable| #[trigger] seq_insert(terms_as_vars@, v).contains(x) == (terms_as_vars@.contains(x) || x == v) by { lemma_seq_insert_contains(terms_as_vars@, v, x); }
 //@         assert(term_var(a.terms@[it.index@ as int]) == Some(v));
 //@     }
